@@ -647,7 +647,6 @@ func (in *Interp) zeroLike(x *Term) *Term {
 	return in.tt.BV(x.sort.W, 0)
 }
 
-
 // jsonConvert converts a value that was marshalled as type st into the Go type dt the way a JSON
 // round trip would: objects by (case-insensitive) member name, numbers by value, byte slices and
 // strings as such. cur is the current destination (members absent in the JSON keep their value).
